@@ -319,6 +319,13 @@ def main(check, tier, argv=()):
   known_hits = {}
   reported = 0
   os.makedirs(os.path.join(boot.VERIF_ROOT, 'replays'), exist_ok=True)
+  if os.environ.get('VERIF_LIST') == '1' and agg['viol']:
+    # Debug aid: list every distinct signature, skip minimisation.
+    for k in sorted(agg['viol']):
+      ent = agg['viol'][k]
+      kf = findings.match(check.prop, ent['v'])
+      print(f'SIG {"known" if kf else "NEW"} x{ent["count"]} {ent["v"]["clause"]} {json.dumps(ent["v"]["sig"], sort_keys=True)} :: {ent["v"]["detail"][:160]}')
+    return 3
   for k in sorted(agg['viol']):
     ent = agg['viol'][k]
     v = ent['v']
